@@ -52,5 +52,268 @@ pub fn run(tier: &str) -> ! {
     run.add(mcx::explore(&scn, &b));
     let (sb, bb) = scenario_burst(tier);
     run.add(mcx::explore(&sb, &bb));
+    let comp = component::scenario(tier);
+    run.add(mcx::explore(&comp, &Bounds { max_depth: comp.ops as usize, wall_cap_s: if tier_is_thorough(tier) { 900.0 } else { 25.0 }, replay_sample: 16, ..Default::default() }));
     run.finish()
+}
+
+// ------------------------------------------------------------------ component level
+
+pub mod component {
+    //! Exhaustive operation sequences with *arbitrary* sector sets (valid, partly invalid,
+    //! already terminated…) on the real `Partition` over a memory store. After every accepted
+    //! call everything is recomputed from the individual sectors, and every returned power delta
+    //! must equal the change of the partition's active power.
+    use crate::miner::{PP, bf, part_view};
+    use crate::minercheck::check_partition;
+    use crate::util::*;
+    use fil_actor_miner::{Partition, PowerPair, QuantSpec, SectorOnChainInfo, SectorOnChainInfoFlags, Sectors, power_for_sector};
+    use fil_actors_runtime::runtime::Policy;
+    use fil_actors_runtime::test_utils::make_sealed_cid;
+    use fvm_ipld_amt::Amt;
+    use fvm_shared::bigint::BigInt;
+    use fvm_shared::econ::TokenAmount;
+    use fvm_shared::sector::{RegisteredSealProof, SectorSize};
+    use mcvm::Store;
+    use mcx::{Key, Scenario, Step};
+    use num_traits::Zero;
+    use serde::{Deserialize, Serialize};
+    use std::collections::BTreeMap;
+
+    pub const SS: SectorSize = SectorSize::_2KiB;
+    pub const UNIT: i64 = 24;
+
+    #[derive(Clone, Debug, Serialize, Deserialize)]
+    pub enum Op {
+        Add { set: Vec<u64>, proven: bool },
+        RecordFaults(Vec<u64>),
+        DeclareRecovered(Vec<u64>),
+        RecoverFaults,
+        ActivateUnproven,
+        SkippedFaults(Vec<u64>),
+        MissedPost,
+        Terminate(Vec<u64>),
+        PopExpired(u8),
+        PopEarly(u64),
+        Reschedule(Vec<u64>),
+    }
+
+    #[derive(Clone)]
+    pub struct CS {
+        pub p: Partition,
+        pub infos: BTreeMap<u64, SectorOnChainInfo>,
+        pub now: i64,
+        pub offset: i64,
+        pub ops_left: u8,
+    }
+
+    pub struct PartitionOps {
+        pub ops: u8,
+        pub sets: Vec<Vec<u64>>,
+    }
+
+    fn info(n: u64, expiration: i64, qa_mult: u64) -> SectorOnChainInfo {
+        SectorOnChainInfo {
+            sector_number: n,
+            seal_proof: RegisteredSealProof::StackedDRG2KiBV1P1,
+            sealed_cid: make_sealed_cid(format!("s{n}").as_bytes()),
+            deprecated_deal_ids: vec![],
+            activation: 0,
+            expiration,
+            deal_weight: BigInt::zero(),
+            // a verified sector: weight = space x duration (qa_mult 10 => fully verified)
+            verified_deal_weight: if qa_mult > 1 { BigInt::from(2048u64) * BigInt::from(expiration) } else { BigInt::zero() },
+            initial_pledge: TokenAmount::from_atto(1000 + n),
+            expected_day_reward: None,
+            expected_storage_pledge: None,
+            power_base_epoch: 0,
+            replaced_day_reward: None,
+            sector_key_cid: None,
+            flags: SectorOnChainInfoFlags::SIMPLE_QA_POWER,
+            daily_fee: TokenAmount::from_atto(10 + n),
+        }
+    }
+
+    fn sectors_amt<'a>(store: &'a Store, infos: &BTreeMap<u64, SectorOnChainInfo>) -> Sectors<'a, Store> {
+        let mut amt = Amt::new_with_bit_width(store, 5);
+        for (n, i) in infos {
+            amt.set(*n, i.clone()).unwrap();
+        }
+        Sectors { amt }
+    }
+
+    fn active_power(v: &crate::miner::PartView, infos: &BTreeMap<u64, SectorOnChainInfo>) -> PP {
+        let mut r = BigInt::zero();
+        let mut q = BigInt::zero();
+        for s in v.sectors.iter().filter(|s| !v.terminated.contains(s) && !v.faults.contains(s) && !v.unproven.contains(s)) {
+            let p = power_for_sector(SS, &infos[s]);
+            r += p.raw;
+            q += p.qa;
+        }
+        (r, q)
+    }
+
+    impl Scenario for PartitionOps {
+        type S = CS;
+        type A = Op;
+        type W = Store;
+        fn name(&self) -> String {
+            "partition-component".into()
+        }
+        fn worker(&self, store: &Store) -> Store {
+            store.clone()
+        }
+        fn bases(&self, store: &Store) -> Vec<(String, CS)> {
+            let mut out = vec![];
+            for off in [0i64, 5] {
+                // sectors 1,2 expire in the same quantised slot, 3 later, 4 far; 2 is verified
+                let infos: BTreeMap<u64, SectorOnChainInfo> =
+                    [(1, info(1, 30, 1)), (2, info(2, 31, 10)), (3, info(3, 60, 1)), (4, info(4, 400, 1))].into_iter().collect();
+                out.push((format!("empty-partition-offset-{off}"), CS { p: Partition::new(store).unwrap(), infos, now: 10, offset: off, ops_left: self.ops }));
+            }
+            out
+        }
+        fn key(&self, s: &CS) -> Key {
+            let bz = fvm_ipld_encoding::to_vec(&s.p).unwrap();
+            let exps: Vec<i64> = s.infos.values().map(|i| i.expiration).collect();
+            mcx::hash_key(&[&bz, &s.now.to_le_bytes(), &s.offset.to_le_bytes(), &[s.ops_left], format!("{exps:?}").as_bytes()])
+        }
+        fn kind(&self, a: &Op) -> String {
+            format!("{a:?}").split(|c| c == '(' || c == ' ' || c == '{').next().unwrap().to_string()
+        }
+        fn actions(&self, _w: &Store, s: &CS) -> Vec<Op> {
+            if s.ops_left == 0 {
+                return vec![];
+            }
+            let mut v = vec![];
+            for set in &self.sets {
+                v.push(Op::Add { set: set.clone(), proven: true });
+                v.push(Op::Add { set: set.clone(), proven: false });
+                v.push(Op::RecordFaults(set.clone()));
+                v.push(Op::DeclareRecovered(set.clone()));
+                v.push(Op::SkippedFaults(set.clone()));
+                v.push(Op::Terminate(set.clone()));
+                v.push(Op::Reschedule(set.clone()));
+            }
+            v.push(Op::RecoverFaults);
+            v.push(Op::ActivateUnproven);
+            v.push(Op::MissedPost);
+            for k in 0..3 {
+                v.push(Op::PopExpired(k));
+            }
+            v.push(Op::PopEarly(1));
+            v.push(Op::PopEarly(10));
+            v
+        }
+        fn step(&self, store: &Store, s: &CS, a: &Op, _f: &[usize]) -> Step<CS> {
+            let mut n = s.clone();
+            n.ops_left -= 1;
+            let quant = QuantSpec { unit: UNIT, offset: s.offset };
+            let policy = Policy::default();
+            let before = part_view(store, &s.p, quant);
+            let act0 = active_power(&before, &s.infos);
+            let fault_exp = s.now + 48;
+            let sectors = sectors_amt(store, &s.infos);
+            // (accepted, power delta the op reported, if any)
+            let res: Result<Option<PowerPair>, String> = (|| match a {
+                Op::Add { set, proven } => {
+                    if set.iter().any(|x| !s.infos.contains_key(x)) {
+                        return Err("unknown sector".to_string());
+                    }
+                    let infos: Vec<SectorOnChainInfo> = set.iter().map(|x| s.infos[x].clone()).collect();
+                    let (power, _fee) = n.p.add_sectors(store, *proven, &infos, SS, quant).map_err(|e| e.to_string())?;
+                    Ok(if *proven { Some(power) } else { Some(PowerPair::zero()) })
+                }
+                Op::RecordFaults(set) => {
+                    let (_nf, delta, _nfp) = n.p.record_faults(store, &sectors, &bf(set), fault_exp, SS, quant).map_err(|e| e.to_string())?;
+                    Ok(Some(delta))
+                }
+                Op::DeclareRecovered(set) => {
+                    n.p.declare_faults_recovered(&sectors, SS, &bf(set)).map_err(|e| e.to_string())?;
+                    Ok(Some(PowerPair::zero()))
+                }
+                Op::RecoverFaults => {
+                    let p = n.p.recover_faults(store, &sectors, SS, quant).map_err(|e| e.to_string())?;
+                    Ok(Some(p))
+                }
+                Op::ActivateUnproven => Ok(Some(n.p.activate_unproven())),
+                Op::SkippedFaults(set) => {
+                    let (delta, _, _, _) = n.p.record_skipped_faults(store, &sectors, SS, quant, fault_exp, &bf(set)).map_err(|e| e.to_string())?;
+                    Ok(Some(delta))
+                }
+                Op::MissedPost => {
+                    let (delta, _, _) = n.p.record_missed_post(store, fault_exp, quant).map_err(|e| e.to_string())?;
+                    Ok(Some(delta))
+                }
+                Op::Terminate(set) => {
+                    let (removed, _unproven) = n.p.terminate_sectors(&policy, store, &sectors, s.now, &bf(set), SS, quant).map_err(|e| e.to_string())?;
+                    let mut d = removed.active_power.clone();
+                    d = PowerPair { raw: -d.raw, qa: -d.qa };
+                    Ok(Some(d))
+                }
+                Op::PopExpired(k) => {
+                    let until = match k {
+                        0 => s.now,
+                        1 => quant.quantize_up(31),
+                        _ => quant.quantize_up(60),
+                    };
+                    let popped = n.p.pop_expired_sectors(store, until, quant).map_err(|e| e.to_string())?;
+                    Ok(Some(PowerPair { raw: -popped.active_power.raw, qa: -popped.active_power.qa }))
+                }
+                Op::PopEarly(max) => {
+                    n.p.pop_early_terminations(store, *max).map_err(|e| e.to_string())?;
+                    Ok(Some(PowerPair::zero()))
+                }
+                Op::Reschedule(set) => {
+                    let new_exp = 90;
+                    let moved = n.p.reschedule_expirations(store, &sectors, new_exp, &bf(set), SS, quant).map_err(|e| e.to_string())?;
+                    for i in moved {
+                        // the caller of reschedule_expirations guarantees unchanged power: keep the
+                        // verified space constant by rebasing the weight on the new duration
+                        let e = n.infos.get_mut(&i.sector_number).unwrap();
+                        if !e.verified_deal_weight.is_zero() {
+                            e.verified_deal_weight = BigInt::from(2048u64) * BigInt::from(new_exp);
+                        }
+                        e.expiration = new_exp;
+                    }
+                    Ok(Some(PowerPair::zero()))
+                }
+            })();
+            match res {
+                Err(_) => {
+                    // rejected: the actor discards the partition (transaction rollback)
+                    let mut back = s.clone();
+                    back.ops_left = n.ops_left;
+                    Step::new(back, "rejected")
+                }
+                Ok(delta) => {
+                    let after = part_view(store, &n.p, quant);
+                    let mut st = Step::new(n.clone(), "accepted");
+                    st.agreed = 1;
+                    if let Err(e) = check_partition("partition", &after, &n.infos, quant) {
+                        st.violation = Some(format!("after {a:?}: {e}"));
+                    } else if let Some(d) = delta {
+                        let act1 = active_power(&after, &n.infos);
+                        let got = (&act1.0 - &act0.0, &act1.1 - &act0.1);
+                        if (d.raw.clone(), d.qa.clone()) != got {
+                            st.violation = Some(format!("after {a:?}: reported power delta ({}, {}) != change of the active power {:?}", d.raw, d.qa, got));
+                        }
+                    }
+                    st
+                }
+            }
+        }
+        fn describe(&self) -> serde_json::Value {
+            serde_json::json!({"component": "fil_actor_miner::Partition over a memory store", "sectors": "4 (two sharing a quantised expiration, one verified)", "sets": self.sets, "ops": self.ops, "quant_offsets": [0, 5]})
+        }
+    }
+
+    pub fn scenario(tier: &str) -> PartitionOps {
+        let all: Vec<Vec<u64>> = (1u64..16).map(|m| (0..4).filter(|b| m & (1 << b) != 0).map(|b| b + 1).collect()).collect();
+        if tier_is_thorough(tier) {
+            PartitionOps { ops: 6, sets: all }
+        } else {
+            PartitionOps { ops: 4, sets: vec![vec![1], vec![2], vec![1, 2], vec![3], vec![1, 3], vec![1, 2, 3, 4], vec![4, 9]] }
+        }
+    }
 }
